@@ -1,6 +1,7 @@
 import GgrsModel.Driver.Codec
 import GgrsModel.Driver.Accept
 import GgrsModel.Driver.Monitors2
+import GgrsModel.Driver.BuilderSuite
 
 open Ggrs.Driver
 
@@ -63,6 +64,7 @@ def main (args : List String) : IO UInt32 := do
   match args with
   | ["codec"] => loopLines stdin stdout codecLine; return 0
   | ["accept"] => runAccept
+  | ["builder"] => loopLines stdin stdout builderLine; return 0
   | ["monitor", props] => runMonitors (props.splitOn ",")
   | _ =>
     IO.eprintln "usage: ggrs_model codec | accept"
